@@ -521,6 +521,9 @@ def compare(st, mo, E, rtol=1e-9):
     post = st['post']
     if 'raises' in mo:
         return [('model-raises', 'impl returned', 'model: the implementation would raise')]
+    if len(mo['ph']) != len(post['ph']) or len(mo['slice']['ph']) != len(post['hist'][0]['ph']):
+        # the model answered for another number of phases (e.g. it was handed fewer tables than phases): a difference, not a crash
+        return [('number of phases (state, row)', (len(post['ph']), len(post['hist'][0]['ph'])), (len(mo['ph']), len(mo['slice']['ph'])))]
     num('dtProposed', st['dtProp'], mo['dtProp'])
     num('dt', post['hist'][0]['time'] - st['pre']['hist'][0]['time'], mo['dt'], tol=1e-7)
     for p in range(len(post['ph'])):
@@ -665,7 +668,7 @@ class FaultyTherm:
         setattr(object.__getattribute__(self, '_real'), name, value)
 
 
-def scenario(name, rng):
+def scenario(name, rng, noload=False):
     name = name.split('@')[0]
     """(model, simulated time, step cap) — real kawin models on the shipped databases"""
     import kwnruns
@@ -684,6 +687,8 @@ def scenario(name, rng):
         # the largest class)
         m = kwnruns.build_binary(x0=rng.uniform(3e-3, 5e-3), bins=rng.randint(36, 44), minBins=30, maxBins=rng.randint(55, 65), cMax=rng.uniform(3.6e-9, 4.4e-9),
                                  adaptive=(name != 'alzr-fixed-grid'))
+        if noload:
+            return m, 3600 * 5          # the same configuration, nothing loaded (reference of the run after reset())
         m.setup()
         r1 = rng.uniform(0.78, 0.86) * float(m.PBM[0].PSDbounds[-1]); amp = 10 ** rng.uniform(16.5, 19.5)
 
@@ -871,7 +876,7 @@ def _reset_part(ctx, res, prop, name, m, rec, cfg, pbm0, cap2, driver=True):
     finally:
         detach(rec2)
     # (4) reset_like_fresh on the implementation: a freshly built model of the same configuration, same number of steps
-    f, _ = scenario(name, _scenario_rng(ctx, name))
+    f, _ = scenario(name, _scenario_rng(ctx, name), noload=True)
     if 'record' in name.split('@')[1:]:
         f.setPSDrecording(True)
     kwnruns.run(f, rec.simt, solver=solver, max_steps=cap2)
